@@ -356,6 +356,49 @@ func (w *world) oracleOneScope(sc *model.SidecarScope, ns string, gateway bool) 
 			}
 		}
 	}
+	// the documented same-hostname tie-break inside one egress listener: the proxy's own namespace
+	// wins, then (unified scoping) the namespace of a Kubernetes service, else any candidate namespace
+	if !gateway {
+		for _, l := range sc.EgressListeners {
+			hosts := []string{"*/*"}
+			port := 0
+			if l.IstioListener != nil {
+				hosts = l.IstioListener.Hosts
+				if p := l.IstioListener.Port; p != nil && p.Number != 0 && strings.ToUpper(p.Protocol) != "HTTP_PROXY" {
+					port = int(p.Number)
+				}
+			}
+			chosen := map[string]string{}
+			for _, s := range l.Services() {
+				if prev, ok := chosen[string(s.Hostname)]; ok && prev != s.Attributes.Namespace {
+					return "listener-two-namespaces-for-hostname " + string(s.Hostname)
+				}
+				chosen[string(s.Hostname)] = s.Attributes.Namespace
+			}
+			for i := range w.svcs {
+				sp := &w.svcs[i]
+				if !w.documentedVisible(sp, ns) || !w.exportWellFormed(sp) || !importsHost(ns, hosts, sp.ns, sp.hostname) {
+					continue
+				}
+				if port != 0 {
+					// the property promises delivery (and hence the tie-break) for port-unrestricted hosts
+					// only: a port-bound listener on the exact-host path sees one service per (hostname,
+					// namespace), which may lack the port while a second one has it
+					continue
+				}
+				got, ok := chosen[sp.hostname]
+				if !ok {
+					return "listener-missing " + sp.id + " " + ns
+				}
+				if sp.ns == ns && got != ns {
+					return "tiebreak-own-namespace " + sp.id + " " + ns
+				}
+				if w.unified && sp.k8s && got != sp.ns && got != ns {
+					return "tiebreak-kubernetes " + sp.id + " " + ns
+				}
+			}
+		}
+	}
 	if w.enhanced {
 		for _, cs := range model.VerifC07ScopeDestinationRules(sc) {
 			for _, c := range cs {
@@ -389,11 +432,6 @@ func (w *world) oracleOneScope(sc *model.SidecarScope, ns string, gateway bool) 
 		}
 		win := byHost[sp.hostname]
 		if win == nil {
-			// known corner, reported separately: a second service with the same (hostname, namespace)
-			// shadowed in HostnameAndNamespace by one that is not visible (exact-host fast path)
-			if w.shadowedByInvisible(sp, ns) {
-				continue
-			}
 			return "missing-no-winner " + sp.id + " " + ns
 		}
 		wsp := w.byID[svcID(win)]
@@ -402,18 +440,6 @@ func (w *world) oracleOneScope(sc *model.SidecarScope, ns string, gateway bool) 
 		}
 	}
 	return ""
-}
-
-// shadowedByInvisible: another service with the same hostname and namespace exists that is not
-// visible to ns (the index keeps one service per (hostname, namespace)).
-func (w *world) shadowedByInvisible(sp *svcSpec, ns string) bool {
-	for i := range w.svcs {
-		o := &w.svcs[i]
-		if o.id != sp.id && o.hostname == sp.hostname && o.ns == sp.ns && !w.documentedVisible(o, ns) {
-			return true
-		}
-	}
-	return false
 }
 
 func (w *world) oracleScope() string {
